@@ -74,9 +74,15 @@ theorem shapeInts_of_some (v : Val) (s : List Int) (h : Spec.shapeOfVal v = some
   | list xs => simp only [Spec.shapeOfVal] at h; simp [shapeInts, asInt_eq, h]
   | _ => simp [Spec.shapeOfVal] at h
 
-/-- a rank-1 array's declared length is the number of items it holds -/
+/-- not an unsigned numpy scalar (numpy promotes uint64 mixed with int64 to float64) -/
+def NoUnsigned (x : Val) : Prop := ∀ dt b, x = .npscalar dt b → dt.kind ≠ .uint
+
+/-- a well-formed shape value: a rank-1 array's declared length is the number of items it
+holds, and no unsigned numpy integers occur (as dtype or as tuple entries) -/
 def WFShape : Val → Prop
-  | .arr dt [n] d => n = (chunks dt.size d).length
+  | .arr dt [n] d => n = (chunks dt.size d).length ∧ dt.kind ≠ .uint
+  | .tuple xs => ∀ x ∈ xs, NoUnsigned x
+  | .list xs => ∀ x ∈ xs, NoUnsigned x
   | _ => True
 
 theorem chunks_encodeInts (dt : DType) (hs : 1 ≤ dt.size) (xs : List Int) :
@@ -93,21 +99,32 @@ theorem chunks_encodeInts (dt : DType) (hs : 1 ≤ dt.size) (xs : List Int) :
     exact this xs
 
 theorem wf_ofInts (xs : List Int) : WFShape (Val.ofInts xs) := by
-  simp [WFShape, Val.ofInts, chunks_encodeInts DType.int64 (by decide)]
+  refine ⟨?_, by decide⟩
+  simp [chunks_encodeInts DType.int64 (by decide)]
 
 theorem wf_shapeArray (xs : List Int) : WFShape (shapeArray xs) := by
   unfold shapeArray
   split
-  · simp [WFShape, chunks, chunksAux]
+  · exact ⟨by simp [chunks, chunksAux], by decide⟩
   · exact wf_ofInts xs
 
-theorem wf_flattenArray (it : Val) (xs : List Int) : WFShape (flattenArray it xs) := by
+theorem wf_flattenArray (it : Val) (xs s : List Int) (hit : WFShape it) (hsh : Spec.shapeOfVal it = some s) :
+    WFShape (flattenArray it xs) := by
   unfold flattenArray
   split
-  · split
-    · have := chunks_encodeInts u64 (by decide) xs
-      simp only [u64] at this
-      simp [WFShape, this]
+  · rename_i dt sh d
+    split
+    · rename_i hu
+      -- an unsigned input array is not well-formed
+      exfalso
+      have hk : dt.kind = DKind.uint := by
+        have := hu
+        simp only [Bool.and_eq_true, beq_iff_eq] at this
+        exact this.1
+      match sh, hit, hsh with
+      | [n], hit, _ => exact hit.2 hk
+      | [], _, hsh => simp [Spec.shapeOfVal] at hsh
+      | _ :: _ :: _, _, hsh => simp [Spec.shapeOfVal] at hsh
     · exact wf_shapeArray xs
   · exact wf_shapeArray xs
 
@@ -141,7 +158,7 @@ theorem stepNode_flatten (pre post : Node) (vo vi : Val) (s : List Int) (sd ed :
   obtain ⟨v, h1, hv, hwv⟩ := inferInput_keyed pre post vo vi s hpo hso hpi hvi hwo hwi
   have hsi := shapeInts_of_some v s hv hne
   have hfa := shapeOfVal_flattenArray v _ hfit
-  have hwf := wf_flattenArray v (calcFlattenOutput s sd ed)
+  have hwf := wf_flattenArray v (calcFlattenOutput s sd ed) s hwv hv
   cases post with
   | mk k f i o m c e =>
   simp only [Node.kind, Node.outputType, Node.field?, Node.fields] at hk hout hsd hed
